@@ -14,6 +14,9 @@ def load_known():
     return [e for e in data.get("findings", []) if isinstance(e, dict)]
 
 
+KNOWN_HELPERS = {}
+
+
 def match_known(known, prop, obname, label, values):
     for k in known:
         if k.get("property") != prop:
@@ -23,7 +26,9 @@ def match_known(known, prop, obname, label, values):
         if not fnmatch.fnmatch(label, k.get("label", "*")):
             continue
         try:
-            if eval(k.get("when", "True"), {"v": values, "__builtins__": {"abs": abs, "len": len, "str": str, "any": any, "all": all, "isinstance": isinstance, "float": float, "int": int}}):
+            env = {"v": values, "__builtins__": {"abs": abs, "len": len, "str": str, "any": any, "all": all, "isinstance": isinstance, "float": float, "int": int}}
+            env.update(KNOWN_HELPERS)
+            if eval(k.get("when", "True"), env):
                 return k
         except Exception:
             continue
@@ -145,6 +150,7 @@ def main(argv=None):
     mod = importlib.import_module(modname)
     if hasattr(mod, "prepare"):
         mod.prepare(_BUILD, args.tier)
+    KNOWN_HELPERS.update(getattr(mod, "KNOWN_HELPERS", {}))
 
     if args.replay:
         with open(args.replay) as f:
